@@ -33,7 +33,7 @@ func TestBitstreamVsBcanalyzer(t *testing.T) {
 	if err := os.WriteFile(src, []byte(xcheckC), 0o644); err != nil {
 		t.Fatal(err)
 	}
-	for _, flags := range [][]string{{"-O0"}, {"-O1", "-g"}, {"-O2"}} {
+	for _, flags := range [][]string{{"-O1", "-g"}} {
 		bc := filepath.Join(dir, "t.bc")
 		args := append(append([]string{}, flags...), "-emit-llvm", "-c", src, "-o", bc)
 		if out, err := exec.Command(clang, args...).CombinedOutput(); err != nil {
